@@ -17,6 +17,7 @@ import Yld.Proofs.ClauseOK
 import Yld.Proofs.PyTop
 import Yld.Proofs.PyDeep
 import Yld.Proofs.Activation
+import Yld.Proofs.WFPreserved
 import Std.Data.String.ToNat
 namespace Yld.C01
 
@@ -160,5 +161,20 @@ theorem aliased_activation_is_textbook_activation (e : Engine) (hwf : e.WF) (f :
 
 /-- Non-vacuity of the well-formedness hypothesis: the engine as constructed is well-formed. -/
 theorem fresh_engine_is_well_formed : ({} : Engine).WF := Engine.WF.default
+
+/-- Well-formedness is an invariant of the API: loading, registering a Python predicate with closed
+    rows, clearing, `assert_fact` and queries — however they end, whatever the fuel — lead from
+    well-formed engine states to well-formed engine states. So the hypothesis of
+    `aliased_activation_is_textbook_activation` holds along every history that starts from the
+    constructed engine. -/
+theorem well_formedness_is_invariant (e : Engine) (h : e.WF) :
+    (∀ m cs ow, (e.load m cs ow).WF) ∧
+    (∀ name arity (p : PyPred), (∀ c ∈ p.rows, FactClosed c) → (e.register name arity p).WF) ∧
+    e.clear.WF ∧
+    (∀ fuel name args app, (e.assertFact fuel name args app).1.WF) ∧
+    (∀ mode fuel name args sched, ArgsScoped e args → (e.query mode fuel name args sched).1.WF) :=
+  ⟨fun m cs ow => wf_load e h m cs ow, fun name arity p hp => wf_register e h name arity p hp, wf_clear e h,
+   fun fuel name args app => wf_assertFact e h fuel name args app,
+   fun mode fuel name args sched ha => wf_query e h mode fuel name args ha sched⟩
 
 end Yld.C01
